@@ -41,6 +41,14 @@ ASSUMPTIONS = [
     "non-ASCII text input is outside the models (the oracle still exercises it in the malformed stream)",
 ]
 
+MSG_WORDS = [
+    "id", "flags", "edns", "eflags", "payload", "opcode", "rcode", "QR", "AA", "DO", "IN", "FLAG3", "FLAG15", "FLAG16",
+    "FLAG99", "FLAG999999999996", "FLAG", "QUERY", "UPDATE", "NOTIFY", "NOERROR", "BADVERS", "15", "16", "-1", "255",
+    "256", "65535", "65536", "4096", "4095", "99999999999", "0x10", "1", "0", ";QUESTION", ";ANSWER", ";ZONE", ";UPDATE",
+    ";PREREQ", ";HEADER", ";AUTHORITY", ";ADDITIONAL", "example.", "A", "TXT", "SOA", "ANY", "NONE", "CH", "TYPE65535",
+    "TYPE65536", "CLASS65536", "300", "-5", "4294967295", "4294967296", '"x"', "10.0.0.1", "\\", "(", ")", "OPT", "TSIG",
+    "@", "", "\n", "\n", "\n",
+]
 SAMPLES = json.load(open(os.path.join(VERIF, "corpus", "C04", "samples.json")))
 
 
@@ -425,12 +433,24 @@ def eval_case(ctx: Ctx, c: dict):
                 render_back(ctx, "rrset", rrs, rep, f"rrset parsed from {t!r}", wire=False)
     elif k == "msg.text":
         t = c["text"]
-        # textual messages are not among the inputs the property enumerates (names, records, TTLs, zone
-        # files): outcomes are counted for the evidence, never reported
-        cls, m, e = guarded(lambda: dns.message.from_text(t))
-        ctx.count("info.message.from_text." + cls.split(":")[0])
-        if cls == "HANG":
-            ctx.fail("C04/message.from_text/HANG", f"message.from_text({t!r}) did not terminate", rep)
+        # textual messages are not in the statement's list of text inputs (names, records, TTLs, zone files),
+        # so the "syntax-error family only" clause is not applied to them (UnknownHeaderField, UnknownOpcode,
+        # ... are DNSException but not SyntaxError); dns.message.from_text is however one of the property's
+        # observation points, and the clauses quantified over every entry point are applied: no exception
+        # from outside the library's hierarchy, no hang, and a returned value renders to text and wire again.
+        kw = {}
+        if c.get("orr"):
+            kw["one_rr_per_rrset"] = True
+        if c.get("origin"):
+            kw["origin"] = dns.name.from_text("example.")
+            kw["relativize"] = bool(c.get("relativize"))
+        cls, m, e = guarded(lambda: dns.message.from_text(t, **kw))
+        if report(ctx, "message.from_text", cls, rep, f"message.from_text({t[:300]!r}, {kw}) raised {e!r}"):
+            return
+        if cls.startswith("DNSOther"):
+            ctx.count("message.from_text.other:" + cls.split(":")[1])
+        if m is not None:
+            render_back(ctx, "message.from_text.value", m, rep, f"message parsed from text {t[:300]!r}")
     elif k == "tok":
         t = c["text"]
 
@@ -593,8 +613,15 @@ def generate(ctx: Ctx, scale: int, rng):
         except Exception:
             t = "id 1\nopcode QUERY\n;QUESTION\nexample. IN A\n"
         t = mutate_text(rng, t) if rng.chance(3, 4) else t
-        c = {"kind": "msg.text", "text": t}
-        ctx.case(("mt", t))
+        c = {"kind": "msg.text", "text": t, "orr": rng.below(2), "origin": rng.below(2), "relativize": rng.below(2)}
+        ctx.case(("mt", t, c["orr"], c["origin"], c["relativize"]))
+        eval_case(ctx, c)
+    for _ in range(n(1500)):
+        # header-line soups: every header keyword with in-range, boundary and absurd operands
+        k = rng.below(14) + 1
+        t = " ".join(rng.choice(MSG_WORDS) for _ in range(k)).replace(" \n ", "\n")
+        c = {"kind": "msg.text", "text": t, "orr": rng.below(2)}
+        ctx.case(("mt", t, c["orr"]), sample=c if len(t) < 100 else None)
         eval_case(ctx, c)
     for _ in range(n(800)):
         t = soup(rng)
